@@ -15,7 +15,7 @@ TIERS = {
 RULE = ('case i: seeded constant expressions (depth <= 5) over + - * / % comparisons == != and or not, unary '
         '+ -, and the casts is int/byte/bool, with boundary literals, const locals and const globals as '
         'leaves (optionally some run-time leaves from argv, so that only part of the tree can be evaluated '
-        'in advance). Each program is compiled twice: as written, and as its run-time twin in which every '
+        'in advance); 12% of the cases are `K ?? noisy(v)` programs with a constant left operand. Each program is compiled twice: as written, and as its run-time twin in which every '
         'literal and const variable is a non-const local holding the same value. Word sizes {2,3,4}. '
         'oracle: both forms must commit the reference history; a compile-time rejection of the constant '
         'form is accepted only if the twin ends in a run-time fault. distinct = hash(source, argv, W); '
@@ -183,13 +183,25 @@ def fold_model(e, consts, runtime, W, mask_byte_cast):
                 return x
             return ('c', -x[1]) if x[0] == 'c' else ('r', wrap(-x[1]))
         op = e[1]
+        if op in ('and', 'or'):
+            a = go(e[2])
+            # a constant operand is cast to bool at compile time on its exact (unwrapped) value
+            ta = a[1] != 0
+            short = (not ta) if op == 'and' else ta
+            try:
+                b = go(e[3])
+            except ZeroDivisionError:
+                # the right operand is folded at compile time (Rejected propagates) but is
+                # not executed when the left operand decides
+                if not short:
+                    raise
+                return ('r', int(ta))
+            if a[0] == 'c' and b[0] == 'c':
+                return ('c', int((bool(a[1]) and bool(b[1])) if op == 'and' else (bool(a[1]) or bool(b[1]))))
+            tb = b[1] != 0
+            return ('r', int((ta and tb) if op == 'and' else (ta or tb)))
         a, b = go(e[2]), go(e[3])
         both = a[0] == 'c' and b[0] == 'c'
-        if op in ('and', 'or'):
-            if both:
-                return ('c', int((bool(a[1]) and bool(b[1])) if op == 'and' else (bool(a[1]) or bool(b[1]))))
-            ta, tb = rt(a) != 0, rt(b) != 0
-            return ('r', int((ta and tb) if op == 'and' else (ta or tb)))
         if both:
             x, y = a[1], b[1]
         else:
@@ -209,6 +221,45 @@ def fold_model(e, consts, runtime, W, mask_byte_cast):
         else:
             v = int({'<': x < y, '<=': x <= y, '>': x > y, '>=': x >= y, '==': x == y, '!=': x != y}[op])
         return ('c', v) if both else ('r', wrap(v))
+    def scan(e):
+        """compile-time pass: every node is folded by the typechecker, also those that are
+        never executed; a constant zero divisor anywhere rejects the program"""
+        k = e[0]
+        if k in ('int', 'chr'):
+            return e[1]
+        if k == 'bool':
+            return int(e[1])
+        if k == 'var':
+            return scan(consts[e[1]][1]) if e[1] in consts else None
+        if k == 'is':
+            v = scan(e[1])
+            if v is None:
+                return None
+            if e[2] == 'bool':
+                return int(bool(v))
+            if e[2] == 'byte' and mask_byte_cast:
+                return v & 0xFF
+            return v
+        if k == 'un':
+            v = scan(e[2])
+            if v is None:
+                return None
+            return {'-': -v, '+': v, 'not': int(not v)}[e[1]]
+        a, b = scan(e[2]), scan(e[3])
+        if a is None or b is None:
+            return None
+        op = e[1]
+        if op in ('/', '%'):
+            if b == 0:
+                raise Rejected()
+            return a // b if op == '/' else a % b
+        if op == 'and':
+            return int(bool(a) and bool(b))
+        if op == 'or':
+            return int(bool(a) or bool(b))
+        return {'+': a + b, '-': a - b, '*': a * b, '<': int(a < b), '<=': int(a <= b), '>': int(a > b),
+                '>=': int(a >= b), '==': int(a == b), '!=': int(a != b)}[op]
+    scan(e)
     x = go(e)
     return rt(x) if x[0] == 'c' else x[1]
 
@@ -217,7 +268,36 @@ def has_short_circuit_fault(e):
     return False
 
 
+def spec_programs(rnd, W):
+    """`K ?? noisy(v)`: a compile-time constant on the left of ?? must not hide the
+    evaluation of the right operand.  Constants stay small (no F4 here)."""
+    noisy = func('int', 'noisy', [('int', 'a')], write(C('(')), write(V('a')), write(C(')')),
+                 ret(bin_('+', V('a'), I(1))))
+    body_c, body_t, decls_t = [], [], []
+    for k in range(rnd.randrange(1, 4)):
+        kv = rnd.randrange(0, 9)
+        arg = rnd.choice((kv - 1, kv, kv + 1, 3))
+        form = rnd.randrange(3)
+        if form == 0:
+            left_c = I(kv)
+        elif form == 1:
+            left_c = bin_('+', I(kv - 1), I(1))
+        else:
+            left_c = V(f'kc{k}')
+            body_c.append(decl('int', f'kc{k}', I(kv), True))
+        decls_t.append(decl('int', f'tv{k}', I(kv)))
+        body_c += [write(('spec', left_c, call('noisy', I(arg)))), write(C(';'))]
+        body_t += [write(('spec', V(f'tv{k}'), call('noisy', I(arg)))), write(C(';'))]
+    const_form = prog([], [noisy, func('empty', '@is_you', [], *body_c)])
+    twin = prog([], [noisy, func('empty', '@is_you', [], *(decls_t + body_t))])
+    g = Gen14(rnd, W, 0.0)
+    g.ifs = []
+    return const_form, twin, [], [], g
+
+
 def make_programs(rnd, W):
+    if rnd.random() < 0.12:
+        return spec_programs(rnd, W)
     g = Gen14(rnd, W, p_runtime=rnd.choice((0.0, 0.0, 0.25)))
     exprs = []
     for _ in range(rnd.randrange(1, 5)):
@@ -228,9 +308,11 @@ def make_programs(rnd, W):
     for name, (t, lit, is_global) in g.consts.items():
         d = decl(t, name, lit, True)
         (glob if is_global else body).append(d)
+    ifs = []
     for i, (t, e) in enumerate(exprs):
         body += [write(e), write(C(';'))]
-        if t == 'bool' and rnd.random() < 0.5:
+        ifs.append(t == 'bool' and rnd.random() < 0.5)
+        if ifs[-1]:
             body += [if_(e, block(write(C('T'))), block(write(C('F'))))]
     params = [(t, n) for n, (t, v) in g.runtime.items()]
     argv = [str(v) for n, (t, v) in g.runtime.items()]
@@ -273,10 +355,11 @@ def make_programs(rnd, W):
     for i, (t, e) in enumerate(exprs):
         le = lift(e)
         stmts += [write(le), write(C(';'))]
-        if body_has_if(body, i, exprs):
+        if ifs[i]:
             stmts += [if_(le, block(write(C('T'))), block(write(C('F'))))]
     conv = [s for s in body if s[0] == 'decl' and s[2] in g.runtime]
     twin = prog([], [func('empty', '@is_you', params, *(conv + tbody + twin_decls + stmts))])
+    g.ifs = ifs
     return const_form, twin, argv, exprs, g
 
 
@@ -338,14 +421,14 @@ def judge(const_form, twin, argv, exprs, g, W):
         out.append(('twin-' + tb.error_kind, tb.error, None))
     elif [tuple(e) for e in tr.history] != [tuple(e) for e in ref.history] or tr.verdicts:
         out.append(('twin-history', f'run-time twin: expected [{hist_text(ref.history)}] got [{hist_text(tr.history)}] {tr.verdicts[:1]}', None))
-    ifs = [body_has_if(const_form[2][0][4][1], i, exprs) for i in range(len(exprs))]
+    ifs = list(getattr(g, 'ifs', [False] * len(exprs)))
     want = [tuple(e) for e in ref.history]
     fp = None
     if cb.error_kind == 'rejected':
         if ref.outcome == 'ERROR':
             info['accepted_rejection'] = True
             return out, info
-        pred = predict_known_defect(exprs, ifs, g, W, True)
+        pred = predict_known_defect(exprs, ifs, g, W, True) if exprs else None
         if pred == REJECT:
             fp = 'F4-fold-unbounded-int'
         out.append(('spurious-rejection', f'constant form rejected ({cb.error}) but its run-time twin runs without a fault '
@@ -356,7 +439,7 @@ def judge(const_form, twin, argv, exprs, g, W):
         return out, info
     got = [tuple(e) for e in cr.history]
     if got != want or cr.outcome != ref.outcome:
-        pred = predict_known_defect(exprs, ifs, g, W, True)
+        pred = predict_known_defect(exprs, ifs, g, W, True) if exprs else REJECT
         observed = cr.output() + (b'<division_by_zero>' if cr.error_kind == 'division_by_zero' else b'')
         if pred != REJECT and observed == pred:
             fp = 'F4-fold-unbounded-int'
@@ -398,7 +481,9 @@ def case(seed, idx, tier):
     viol, info = judge(const_form, twin, argv, exprs, g, W)
     res['key'] = digest(lang.dumps(const_form), argv, W)
     foldable = sum(count_foldable(e, g) for _, e in exprs)
-    res['nontrivial'] = bool(foldable and info.get('cr') is not None and info.get('tr') is not None)
+    res['nontrivial'] = bool((foldable or not exprs) and info.get('cr') is not None and info.get('tr') is not None)
+    if not exprs:
+        res['counters']['spec_programs'] = 1
     res['counters'].update(foldable_operators=foldable, expressions=len(exprs),
                            runtime_leaves=len(g.runtime), const_vars=len(g.consts))
     res['counters'][f'word_size_{W}'] = 1
@@ -422,7 +507,7 @@ def case(seed, idx, tier):
             'payload': {'const_form': lang.to_json(const_form), 'twin': lang.to_json(twin), 'argv': argv, 'W': W,
                         'exprs': lang.to_json(tuple(exprs)),
                         'consts': {k: lang.to_json(v) for k, v in g.consts.items()},
-                        'runtime': {k: list(v) for k, v in g.runtime.items()},
+                        'runtime': {k: list(v) for k, v in g.runtime.items()}, 'ifs': list(getattr(g, 'ifs', [])),
                         'const_src': info.get('csrc'), 'twin_src': info.get('tsrc')},
             'sample': {'constant_form': info.get('csrc'), 'argv': argv, 'W': W}})
     return res
@@ -436,6 +521,7 @@ def replay(pl):
     g = _G()
     g.consts = {k: lang.from_json(v) for k, v in pl['consts'].items()}
     g.runtime = {k: tuple(v) for k, v in pl['runtime'].items()}
+    g.ifs = pl.get('ifs', [])
     exprs = [tuple(x) for x in lang.from_json(pl['exprs'])]
     viol, _ = judge(lang.from_json(pl['const_form']), lang.from_json(pl['twin']), pl['argv'], exprs, g, pl['W'])
     return [{'cls': c, 'detail': d, 'fingerprint': fp} for c, d, fp in viol]
